@@ -281,7 +281,7 @@ func runCheck(o *Options) int {
 
 func (eng *Engine) verifyContract(con *Contract, o *Options) *unitResult {
 	r := &unitResult{fn: con.Key, con: con}
-	fn := eng.funcByKey[con.Key]
+	fn := eng.funcByKey[strings.TrimSuffix(con.Key, "#concurrent")]
 	if fn == nil {
 		r.err = fmt.Errorf("function %s not found in the program (renamed or removed?)", con.Key)
 		return r
